@@ -45,11 +45,18 @@ structure Obs where
   range  : Option (Int × Int)
   cache  : List CEntry
   db     : List DEntry
+  /-- the put log of the call: what was handed to `FilterDB.PutFilters`, in order -/
+  puts   : List (Nat × Nat) := []
 deriving Repr
 
 structure Before where
   cache : List CEntry
   db    : List DEntry
+
+/-- some element occurs twice -/
+def dupIn : List Nat → Bool
+  | [] => false
+  | b :: bs => bs.contains b || dupIn bs
 
 /-- Violated clauses of C05 on one call (tags).  `fhs`: the filter headers
 committed when the call was made; `best`: min(block tip, filter tip). -/
@@ -89,6 +96,19 @@ def oracle (fhs : List Nat) (best : Nat) (maxRangeObs : Int) (c : Call) (xs : Li
       else if c.target > best then ["query-above-filter-tip"]
       else []
     | none => []
-  c1 ++ c2 ++ c3 ++ c4 ++ c5 ++ c6 ++ c7 ++ c8
+  -- a filter is accepted (progress, cache/db put) at most once per call and only for a block of
+  -- the requested range that was still awaited
+  let accepted := ((dl.zip o.prog).filter (fun xp => xp.2 != .none)).map (fun xp => xp.1.r.blk)
+  let c9 := if dupIn accepted || accepted.any (fun b => !inRange b) ||
+               dupIn (o.puts.map (·.1)) || o.puts.any (fun p => !inRange p.1 || !goodFor p.1 p.2)
+            then ["duplicate-accepted"] else []
+  -- the query is reported complete only when every block of the requested range was received
+  let c10 := match o.range with
+    | some (s, e) =>
+      if o.prog.contains .finished && decide (s ≤ e) &&
+         (List.range (e - s + 1).toNat).any (fun k => !accepted.contains (s.toNat + k))
+      then ["complete-with-missing"] else []
+    | none => if o.prog.contains .finished then ["complete-with-missing"] else []
+  c1 ++ c2 ++ c3 ++ c4 ++ c5 ++ c6 ++ c7 ++ c8 ++ c9 ++ c10
 
 end Neutrino.GetCFilter
